@@ -36,6 +36,8 @@ def main():
         d0 = sh("timeout 300 /venv/bin/python %s" % demo, env=env, cwd=wt)
         meta["ran"].append({"cmd": "demo on unchanged tree", "exit": d0.returncode})
         a = sh("git apply %s" % patch, cwd=wt)
+        if a.returncode != 0:
+            a = sh("git apply --3way %s && git reset -q" % patch, cwd=wt)     # context changed by later repairs
         meta["ran"].append({"cmd": "git apply", "exit": a.returncode, "out": a.stdout[-300:]})
         d1 = sh("timeout 300 /venv/bin/python %s" % demo, env=env, cwd=wt)
         meta["ran"].append({"cmd": "demo with the change", "exit": d1.returncode, "out": d1.stdout[-600:]})
@@ -64,6 +66,8 @@ def main():
     sh("git -C /repo worktree add -q %s HEAD" % wt2)
     try:
         a = sh("git apply %s" % patch, cwd=wt2)
+        if a.returncode != 0:
+            a = sh("git apply --3way %s && git reset -q" % patch, cwd=wt2)
         for c in checks:
             r = sh("%s/check %s --tier quick" % (VERIF, c), env=dict(os.environ, VERIF_REPO=wt2))
             lines = [l for l in r.stdout.splitlines() if l.startswith("VIOLATION") or "violation:" in l]
